@@ -50,6 +50,7 @@ REQUIRED_LABELS = [
     "fresh:outdir_rel",
     "fresh:outdir_holds_stale_outputs",
     "fresh:cwd_holds_same_named_decoys",
+    "fresh:environment_differs",
     "hist:shared_outdir",
     "fresh:quiet_differs",
     "fresh:multi_file",
@@ -171,6 +172,7 @@ def shapes_(draw: Any) -> Shape:
         quiet=draw(st.booleans()),
         stale=draw(st.sampled_from(["", "", "long", "short"])),
         decoys=draw(st.booleans()),
+        environ=draw(st.sampled_from(["", "east", "west"])),
     )
 
 
@@ -233,6 +235,8 @@ def run_fresh_case(c: FreshCase, stats: Stats) -> None:
             stats.count("fresh:outdir_holds_stale_outputs")
         if sh.decoys and sh.cwd != "src":
             stats.count("fresh:cwd_holds_same_named_decoys")
+        if sh.environ:
+            stats.count("fresh:environment_differs")
         compare(
             (base.code, base.files),
             (run.code, run.files),
